@@ -4,6 +4,7 @@ import Pyunicorn.Lemmas.SimilarityWeight
 import Pyunicorn.Lemmas.SimilarityHilbert
 import Pyunicorn.Lemmas.SimilarityRounding
 import Pyunicorn.Lemmas.SimilarityRnF
+import Pyunicorn.Lemmas.SimilarityHilbertX
 import Pyunicorn.Lemmas.SimilarityCoupled
 import Pyunicorn.Generated.ArithC09
 import Pyunicorn.Model.SimilarityScript
@@ -1492,6 +1493,199 @@ example : let S : XSim := fun i j => if i + j = 1 then none else if i + j = 2 th
     thresholdFromIndexX S 3 0 = some (some (1/2)) ∧ suppressedX rn24 S damp (some (1/2)) 3 = 2 ∧
       nnz (thresholdAdjacencyX (weightedX rn24 true S damp) (some (1/2)) 3) = 0 ∧
       tiesX (offDiagX S 3) (some (1/2)) = 2 ∧ (offDiagX S 3).countP Option.isNone = 2 := by
+  decide +kernel
+
+/-! ## 12. `HilbertClimateNetwork` as executed: NaN coherence / phase, float32 (round 5)
+
+`Model/SimilarityHilbertX.lean`: the methods of `climate/hilbert.py` on top of the NaN / float32
+model `XNet`.  Section 7 is the special case "no NaN, `fl = id`" (`xh_refines`). -/
+
+/-- **link rule of the Hilbert network, as executed**: `i → j` exactly when the nodes are distinct,
+the (damped, rounded) coherence and the rounded threshold are numbers with coherence > threshold,
+and — for a directed network — the phase shift is a number `> 0` (a NaN phase never links) -/
+theorem xh_link_iff (fl : Rat → Rat) (N : Nat) (d : Bool) (S P : XSim) (damp : Sim) (nl : Bool)
+    (θ : Option Rat) (i j : Nat) (hi : i < N) (hj : j < N) :
+    (hilbertStateX fl N d S P damp nl θ).net.A[i * N + j]? = some true ↔
+      (i ≠ j ∧ ∃ s t, weightedX fl nl S damp i j = some s ∧ θ.map fl = some t ∧ t < s) ∧
+        (d = true → ∃ φ, P i j = some φ ∧ 0 < φ) := by
+  cases d
+  · simp only [hilbertStateX, hilbertAdjacencyX, Bool.false_eq_true, if_false]
+    rw [x_link_iff _ _ _ _ _ hi hj]
+    simp
+  · simp only [hilbertStateX, hilbertAdjacencyX, if_true]
+    rw [getElem?_phaseMaskX, flat_div N i j hj, flat_mod N i j hj]
+    rw [← x_link_iff _ _ _ _ _ hi hj]
+    cases hA : (thresholdAdjacencyX (weightedX fl nl S damp) (θ.map fl) N)[i * N + j]? with
+    | none => simp
+    | some b =>
+      cases hP : P i j with
+      | none => simp [gtX]
+      | some φ => cases b <;> simp [gtX]
+
+/-- the constructor yields that state (`_set_directed(d, True)`, `ClimateNetwork.__init__` with the
+float32 cast and the overridden `set_threshold`, `GeoNetwork.__init__`, `_set_directed(d, False)`) -/
+theorem xh_constructor (fl : Rat → Rat) (N : Nat) (d : Bool) (S0 P : XSim) (damp : Sim) (nl : Bool)
+    (θ : Option Rat) :
+    mkHilbertX fl N d S0 P damp nl θ = hilbertStateX fl N d (absX fl S0) P damp nl θ :=
+  mkHilbertX_eq_state fl N d S0 P damp nl θ
+
+/-- a pair with NaN coherence or (directed) NaN phase is never linked -/
+theorem xh_nan_never_linked (fl : Rat → Rat) (N : Nat) (d : Bool) (S P : XSim) (damp : Sim)
+    (nl : Bool) (θ : Option Rat) (i j : Nat) (hi : i < N) (hj : j < N)
+    (h : S i j = none ∨ (d = true ∧ P i j = none)) :
+    (hilbertStateX fl N d S P damp nl θ).net.A[i * N + j]? ≠ some true := by
+  rw [Ne, xh_link_iff fl N d S P damp nl θ i j hi hj]
+  rintro ⟨⟨_, s, t, hs, _, _⟩, hp⟩
+  rcases h with h | ⟨hd, h⟩
+  · simp [weightedX, h] at hs
+  · obtain ⟨φ, hφ, _⟩ := hp hd
+    rw [h] at hφ; cases hφ
+
+/-- an antisymmetric phase never links a pair in both directions, as executed -/
+theorem xh_no_mutual_links (fl : Rat → Rat) (N : Nat) (S P : XSim) (damp : Sim) (nl : Bool)
+    (θ : Option Rat) (i j : Nat) (hi : i < N) (hj : j < N)
+    (hP : ∀ φ, P i j = some φ → P j i = some (-φ)) :
+    ¬ ((hilbertStateX fl N true S P damp nl θ).net.A[i * N + j]? = some true ∧
+       (hilbertStateX fl N true S P damp nl θ).net.A[j * N + i]? = some true) := by
+  rw [xh_link_iff fl N true S P damp nl θ i j hi hj, xh_link_iff fl N true S P damp nl θ j i hj hi]
+  rintro ⟨⟨_, h1⟩, ⟨_, h2⟩⟩
+  obtain ⟨φ, a1, a2⟩ := h1 rfl
+  obtain ⟨ψ, b1, b2⟩ := h2 rfl
+  rw [hP φ a1] at b1
+  cases b1
+  linarith
+
+/-- the reachable float32 Hilbert states -/
+def XHNet.Inv (fl : Rat → Rat) (h : XHNet) (N : Nat) (damp : Sim) (d : Bool) (S P : XSim) : Prop :=
+  ∃ nl θ, h = hilbertStateX fl N d (absX fl S) P damp nl θ
+
+def xhLast (d0 : Bool) (S0 P0 : XSim) : List XHOp → Bool × XSim × XSim
+  | [] => (d0, S0, P0)
+  | .dir d S1 P1 :: os => xhLast d S1 P1 os
+  | _ :: os => xhLast d0 S0 P0 os
+
+theorem xh_step_consistent (fl : Rat → Rat) (h h' : XHNet) (N : Nat) (damp : Sim) (d : Bool)
+    (S P : XSim) (o : XHOp) (hc : h.Inv fl N damp d S P) (hs : h.step fl o = some h') :
+    h'.Inv fl N damp (xhLast d S P [o]).1 (xhLast d S P [o]).2.1 (xhLast d S P [o]).2.2 := by
+  obtain ⟨nl, θ, rfl⟩ := hc
+  cases o with
+  | thr θ' =>
+    simp only [XHNet.step, Option.some.injEq] at hs
+    subst hs
+    exact ⟨nl, θ', setThresholdX_eq_state fl _ θ'⟩
+  | dens k =>
+    simp only [XHNet.step, XHNet.setLinkDensity, Option.map_eq_some_iff] at hs
+    obtain ⟨θ', _, rfl⟩ := hs
+    exact ⟨nl, θ', setThresholdX_eq_state fl _ θ'⟩
+  | nl b =>
+    simp only [XHNet.step, Option.some.injEq] at hs
+    subst hs
+    exact ⟨b, θ, setNonLocalX_eq_state fl _ b rfl⟩
+  | dir d' S1 P1 =>
+    simp only [XHNet.step, Option.some.injEq] at hs
+    subst hs
+    exact ⟨nl, θ, setDirectedX_eq_state fl _ d' S1 P1⟩
+
+theorem xhLast_cons (d : Bool) (S P : XSim) (o : XHOp) (os : List XHOp) :
+    xhLast d S P (o :: os)
+      = xhLast (xhLast d S P [o]).1 (xhLast d S P [o]).2.1 (xhLast d S P [o]).2.2 os := by
+  cases o <;> simp [xhLast]
+
+/-- **consistency after every history, Hilbert network as executed** -/
+theorem xh_consistent_after_history (fl : Rat → Rat) (ops : List XHOp) (h h' : XHNet) (N : Nat)
+    (damp : Sim) (d : Bool) (S P : XSim) (hc : h.Inv fl N damp d S P)
+    (hr : h.run fl ops = some h') :
+    h'.Inv fl N damp (xhLast d S P ops).1 (xhLast d S P ops).2.1 (xhLast d S P ops).2.2 := by
+  induction ops generalizing h d S P with
+  | nil =>
+    simp only [XHNet.run, Option.some.injEq] at hr
+    subst hr
+    exact hc
+  | cons o os ih =>
+    simp only [XHNet.run, Option.bind_eq_some_iff] at hr
+    obtain ⟨h1, e1, e2⟩ := hr
+    rw [xhLast_cons]
+    exact ih h1 _ _ _ (xh_step_consistent fl h h1 N damp d S P o hc e1) e2
+
+/-- **fresh twin, Hilbert network as executed**: after any history of `set_threshold /
+set_link_density / set_non_local / set_directed` (NaN coherence / phase / thresholds, float32) the
+object equals the fresh `HilbertClimateNetwork` with the reported threshold / `non_local` and the
+last `directed`, coherence, phase; the reported `directed` is the last requested one -/
+theorem xh_history_eq_fresh (fl : Rat → Rat) (N : Nat) (d : Bool) (S0 P0 : XSim) (damp : Sim)
+    (nl : Bool) (θ : Option Rat) (ops : List XHOp) (h' : XHNet)
+    (hr : (mkHilbertX fl N d S0 P0 damp nl θ).run fl ops = some h') :
+    h' = mkHilbertX fl N (xhLast d S0 P0 ops).1 (xhLast d S0 P0 ops).2.1 (xhLast d S0 P0 ops).2.2
+          damp h'.net.nonLocal h'.net.θ ∧
+      h'.net.directed = (xhLast d S0 P0 ops).1 := by
+  have hc : (mkHilbertX fl N d S0 P0 damp nl θ).Inv fl N damp d S0 P0 := ⟨nl, θ, xh_constructor ..⟩
+  obtain ⟨nl', θ', rfl⟩ := xh_consistent_after_history fl ops _ h' N damp d S0 P0 hc hr
+  rw [xh_constructor]
+  exact ⟨rfl, rfl⟩
+
+/-- an undirected float32 Hilbert network is the float32 `ClimateNetwork` -/
+theorem xh_undirected_is_climate (fl : Rat → Rat) (h : XHNet) (θ : Option Rat)
+    (hd : h.net.directed = false) : (h.setThreshold fl θ).net = h.net.setThreshold fl θ := by
+  simp [XHNet.setThreshold, XHNet.maskIf, XNet.setThreshold, hd]
+
+/-- **the density request on a Hilbert network, as executed** (NaNs, float32 product, rounded
+threshold, IEEE index): the phase mask only removes links -/
+theorem xh_density_le_request (fl : Rat → Rat) (hmono : ∀ x y, x ≤ y → fl x ≤ fl y)
+    (h h' : XHNet) (ρ : Rat)
+    (hrep : ∀ i j v, i < h.net.N → j < h.net.N → h.net.S i j = some v → fl v = v ∧ 0 ≤ v)
+    (hd : ∀ i j, i < h.net.N → j < h.net.N → h.net.damp i j ≤ 1) (h0 : 0 ≤ ρ) (h1 : ρ ≤ 1)
+    (hs : h.setLinkDensity fl (ieeeIndex ρ (offDiagX h.net.S h.net.N).length) = some h') :
+    (nnz h'.net.A : Rat) ≤ (ρ + ieeeSlack) * ((offDiagX h.net.S h.net.N).length : Rat) := by
+  simp only [XHNet.setLinkDensity, Option.map_eq_some_iff] at hs
+  obtain ⟨θ, hθ, rfl⟩ := hs
+  have hb := x_set_link_density_ieee fl hmono h.net (h.net.setThreshold fl θ) ρ hrep hd h0 h1
+    (by simp [XNet.setLinkDensity, hθ])
+  have hle : nnz (h.setThreshold fl θ).net.A ≤ nnz (h.net.setThreshold fl θ).A := by
+    rw [setThresholdX_eq_state]
+    simp only [hilbertStateX, hilbertAdjacencyX, XNet.setThreshold]
+    split
+    · exact nnz_phaseMaskX_le _ _ _
+    · exact Nat.le_refl _
+  have : (nnz (h.setThreshold fl θ).net.A : Rat) ≤ (nnz (h.net.setThreshold fl θ).A : Rat) := by
+    exact_mod_cast hle
+  linarith
+
+/-- **… on every reachable float32 Hilbert network, nothing assumed about the rounding**: after
+any history (incl. `set_directed`), `set_link_density(ρ)` as executed links at most
+`(ρ + 2⁻⁵² + 2⁻¹⁰⁶)·(N² − N)` ordered pairs; only `damp ≤ 1` is left -/
+theorem rn24_hilbert_density_request_after_history (N : Nat) (d : Bool) (S0 P0 : XSim) (damp : Sim)
+    (nl : Bool) (θ : Option Rat) (ops : List XHOp) (h' h'' : XHNet) (ρ : Rat)
+    (hr : (mkHilbertX rn24 N d S0 P0 damp nl θ).run rn24 ops = some h')
+    (hd : ∀ i j, i < N → j < N → damp i j ≤ 1) (h0 : 0 ≤ ρ) (h1 : ρ ≤ 1)
+    (hs : h'.setLinkDensity rn24 (ieeeIndex ρ (offDiagX h'.net.S h'.net.N).length) = some h'') :
+    (nnz h''.net.A : Rat) ≤ (ρ + ieeeSlack) * ((offDiagX h'.net.S h'.net.N).length : Rat) := by
+  have hc : (mkHilbertX rn24 N d S0 P0 damp nl θ).Inv rn24 N damp d S0 P0 :=
+    ⟨nl, θ, xh_constructor ..⟩
+  obtain ⟨nl', θ', e⟩ := xh_consistent_after_history rn24 ops _ h' N damp d S0 P0 hc hr
+  refine xh_density_le_request rn24 rn24_monotone h' h'' ρ ?_ ?_ h0 h1 hs
+  · intro i j v _ _ hv
+    rw [e] at hv
+    exact rn24_stored_fixed _ i j v hv
+  · rw [e]; exact hd
+
+/-- **the exact Hilbert model is the special case** "no NaN, no rounding" -/
+theorem xh_refines (N : Nat) (d : Bool) (S0 P damp : Sim) (nl : Bool) (θ : Rat) :
+    mkHilbertX id N d (embedSim S0) (embedSim P) damp nl (some θ)
+      = hembed (mkHilbert N d S0 P damp nl θ) := by
+  rw [xh_constructor, hilbert_constructor, absX_embed, hilbertStateX_embed]
+
+/-- directed network, antisymmetric phase with a NaN pair: the pair (0,1) has coherence 1/3
+(float32: 11184811/2²⁵) above the threshold 1/4 and phase 1/2 > 0 → linked one way; the pair
+(0,2) has a NaN phase → never linked although its coherence 3/4 is above the threshold;
+`set_directed(False)` links both directions of both pairs -/
+example : let S : XSim := fun i j => if i = j then some 1 else if i + j = 1 then some (1/3)
+      else if i + j = 2 then some (3/4) else some (1/8)
+    let P : XSim := fun i j => if i + j = 2 ∧ i ≠ j then none else if i < j then some (1/2)
+      else if j < i then some (-1/2) else some 0
+    ((mkHilbertX rn24 3 true S P (fun _ _ => 1) false (some (1/4))).net.A
+        = [false, true, false, false, false, false, false, false, false]) ∧
+      (((mkHilbertX rn24 3 true S P (fun _ _ => 1) false (some (1/4))).run rn24
+          [.dir false S P]).map fun h => (h.net.directed, h.net.A, h.net.nLinks))
+        = some (false, [false, true, true, true, false, false, true, false, false], 2) := by
   decide +kernel
 
 section Scripts
